@@ -6,8 +6,8 @@ def main():
     chk = C.Check('C13')
     quick = chk.tier == 'quick'
     lvl = '1' if quick else '2'
-    chk.bounds.append('E2: VectorMirror on vectors of length 1..%s (scalar and 2-blocked) with EVERY ordered index list without repetition and buffer offsets 0/1; TupleMirror with 2 and 3 components (length 3, offsets 0/1); Gate with 0..%s neighbour mirrors on 3..%s dofs (dofs shared by up to %s mirrors); emulated type-0 synchronisation of 3 patches around one cross point; all vector/buffer entries and alpha symbolic' % (('3', '3', '4', '3') if quick else ('4', '4', '5', '4')))
-    chk.functions += ['LAFEM::VectorMirror::{gather,scatter_axpy,create_buffer,buffer_size} (DenseVector, DenseVectorBlocked<2>)', 'LAFEM::TupleMirror::{gather,scatter_axpy,buffer_size} (2 and 3 components)', 'Global::Gate::{push,compile,get_freqs,from_1_to_0}', 'LAFEM::DenseVector::{component_invert,component_product,triple_dot,format}', 'LAFEM::TupleVector::{set_vec}']
+    chk.bounds.append('E2: VectorMirror on vectors of length 1..%s (scalar and 2-blocked) with EVERY ordered index list without repetition and buffer offsets 0/1; TupleMirror with 2 and 3 components (length 3, offsets 0/1); Gate with 0..%s neighbour mirrors on 3..%s dofs (dofs shared by up to %s mirrors); emulated type-0 synchronisation of 3 patches around one cross point; MatrixMirror on 2x2 (thorough 3x2) CSR / BCSR<2,3> matrices with every pattern and several ordered row / column mirrors; all vector/buffer entries and alpha symbolic' % (('3', '3', '4', '3') if quick else ('4', '4', '5', '4')))
+    chk.functions += ['LAFEM::VectorMirror::{gather,scatter_axpy,create_buffer,buffer_size} (DenseVector, DenseVectorBlocked<2>)', 'LAFEM::TupleMirror::{gather,scatter_axpy,buffer_size} (2 and 3 components)', 'LAFEM::MatrixMirror::{create_buffer,gather,scatter_axpy} (CSR, BCSR<2,3>)', 'Global::Gate::{push,compile,get_freqs,from_1_to_0}', 'LAFEM::DenseVector::{component_invert,component_product,triple_dot,format}', 'LAFEM::TupleVector::{set_vec}']
     chk.assume(*e2prop.E2_ASSUME)
     chk.assume('single process: Dist::Comm is the serial stub; the message exchange itself (Global::SynchVectorTicket / SynchScalarTicket, MPI progress, tag matching), Global::Vector/Matrix/Filter/Transfer wrappers that need several ranks, Global::Muxer/Splitter and AlgDofParti are outside; a type-0 synchronisation is emulated by handing the gathered buffers from one patch object to the other inside one process (DESIGN section C13)')
     e2prop.run_e2(chk, e2prop.e2_harness_path('c13_e2.cpp'), 'c13_e2', timeout=60 if quick else 600, harness_args=['--bounds', lvl])
